@@ -1,8 +1,8 @@
 """C20 — synthetic datasets hit their specified operating points and proportions (R-ideal; Phi axiomatised; RNG stubs)."""
 META = {
     "bounds": {"quick": {"NormalDataset": "mu, sigma > 0, rates in (0,1), thresholds: all symbolic reals; vector rates of length 2; from_metrics: supports {1,2,3}, rates in [1/4,1); sample(): n <= 3",
-                         "Bernoulli": "n <= 4, p symbolic in [0,1]", "Correlated": "n <= 3, p1, p2 in [0,1], rho symbolic (valid and invalid joint distributions)"},
-               "thorough": {"NormalDataset": "as quick, sample(): n <= 5", "Bernoulli": "n <= 6", "Correlated": "n <= 4"}},
+                         "Bernoulli": "n <= 4, p symbolic in [0,1]", "Correlated": "n <= 5, p1, p2 in [0,1], rho symbolic (valid and invalid joint distributions)"},
+               "thorough": {"NormalDataset": "as quick, sample(): n <= 5", "Bernoulli": "n <= 6", "Correlated": "n <= 5"}},
     "assumptions": ["R-ideal; Phi / Phi^-1 uninterpreted: strictly increasing, mutually inverse, Phi(-z) = 1 - Phi(z)", "sqrt(x): the y >= 0 with y*y = x",
                     "RNG: binomial / normal / choice / shuffle results are arbitrary values within their contracts (shuffle = arbitrary permutation)",
                     "'largest integer not exceeding n*p to floating-point accuracy': exact floor in the reals; the float rounding of n*p is outside the claim"],
@@ -19,7 +19,7 @@ def items(tier):
             out.append({"kind": "sample", "n": n, "sc": sc})
     for n in ((1, 2, 4) if tier == "quick" else (1, 2, 4, 6)):
         out.append({"kind": "bernoulli", "n": n})
-    for n in ((1, 2, 4, 5) if tier == "quick" else (1, 2, 3, 4, 5, 6)):      # the three-draw tolerance only bites for n >= 4
+    for n in ((1, 2, 4, 5) if tier == "quick" else (1, 2, 3, 4, 5)):      # the three-draw tolerance only bites for n >= 4; n = 6 ends solver-unknown
         out.append({"kind": "correlated", "n": n})
     out.append({"kind": "correlated_random", "n": 2})
     return out
